@@ -298,6 +298,69 @@ def c_history(ctx, case):
         pass
 
 
+def _depflags(d):
+    return (d["include_subscripts"], d["include_lookups"], d["include_calls"], d["include_cses"])
+
+
+@check("C05.instances")
+def c_instances(ctx, case):
+    """What a memoizing mapper remembers belongs to the INSTANCE: two live instances of one
+    class with different configurations (analysis flags, environments, substitution maps),
+    used alternately on the same expressions, each give what an independent reference gives
+    for its own configuration -- whatever the other one has already been asked."""
+    from .c08 import refsub
+    from .c09 import depmodel
+    pool, hist, fa, fb = case
+    enva = {"x": 3, "y": -2, "z": 5, "a": [1, 2, 3], "b": 7, "f": lambda *a, **k: sum(a) + 1}
+    envb = {"x": -4, "y": 6, "z": 1, "a": [5, 0, 2], "b": -3, "f": lambda *a, **k: sum(a) - 2}
+    sa = {"x": V["y"], "y": V["x"]}
+    sb = {"x": p.Sum((V["z"], 1)), "z": V["x"]}
+    kinds = [
+        ("dependency", lambda c: DependencyMapper(**c), (fa, fb),
+         lambda e, c: set(depmodel(e, _depflags(c))), lambda a, b: a == b),
+        ("cached-dependency", lambda c: CachedDependencyMapper(**c), (fa, fb),
+         lambda e, c: set(depmodel(e, _depflags(c))), lambda a, b: a == b),
+        ("evaluation", lambda c: EvaluationMapper(c), (enva, envb),
+         lambda e, c: refsem.ev(e, c), refsem.values_equal),
+        ("cached-evaluation", lambda c: CachedEvaluationMapper(c), (enva, envb),
+         lambda e, c: refsem.ev(e, c), refsem.values_equal),
+        ("cached-substitution", lambda c: CachedSubstitutionMapper(make_subst_func(c)), (sa, sb),
+         lambda e, c: refsub(e, list(c.items())), teq),
+    ]
+    twins = has_twins(*pool)
+    for name, mk, cfgs, ref, eq in kinds:
+        insts = [mk(cfgs[0]), mk(cfgs[1])]
+        for step, (ei, _a, _kw) in enumerate(hist):
+            e = pool[ei]
+            if not isinstance(e, p.Expression):
+                continue
+            for which in ((0, 1) if step % 2 == 0 else (1, 0)):
+                try:
+                    want = ref(e, cfgs[which])
+                except RecursionError:
+                    raise
+                except Exception:  # noqa: BLE001   (outside the reference's fragment)
+                    ctx.count("instances_reference_undefined")
+                    continue
+                got = outcome(lambda: insts[which](e))
+                ctx.case(None)
+                ctx.count("instance_calls")
+                ctx.count("instances:" + name)
+                if got[0] != "v" or not eq(got[1], want):
+                    if twins and name.startswith("cached"):
+                        ctx.count("instances_twin_pool_skipped")
+                        break       # (==-keyed memo tables: judged by C05.history)
+                    ctx.fail("C05.instances", case, f"{name}:instance-{'AB'[which]}",
+                             f"{name}: two live instances with different configurations used "
+                             f"alternately; call {step} on instance {'AB'[which]} "
+                             f"({G.src(e)}) -> {short(got, 300)}, an independent reference for "
+                             f"that instance's configuration gives {short(want, 300)}")
+                    break
+            else:
+                continue
+            break
+
+
 # {{{ optimizer
 
 OPTS = ["drop_args", "drop_kwargs", "inline_rec", "inline_cache", "inline_get_cache_key"]
@@ -406,6 +469,11 @@ def workload(ctx):
                 ctx.sample("history", {"pool": [G.src(e) for e in pool[:5]],
                                        "calls": [(h[0], h[1], h[2]) for h in hist[:6]]})
             ctx.run("C05.history", (pool, hist, flags))
+            if i % 3 == 0:
+                fb = dict(flags, include_cses=not flags["include_cses"],
+                          include_calls=rng.choice([True, False, "descend_args"]),
+                          include_subscripts=not flags["include_subscripts"])
+                ctx.run("C05.instances", (pool, hist, flags, fb))
         for k, v in tr.handlers().items():
             ctx.count("handler:" + k, v)
         ctx.count("handler:CachedMapper.get_cache_key", tr.counts.get("CachedMapper.get_cache_key", 0))
@@ -435,6 +503,9 @@ def workload(ctx):
         ctx.count("optimizer_histories")
         ctx.run("C05.optimize", (jobs,))
     ctx.floor("history_calls", 20000)
+    for k in ("dependency", "cached-dependency", "evaluation", "cached-evaluation",
+              "cached-substitution"):
+        ctx.floor("instances:" + k, 300)
     ctx.floor("keys_counted", 2000)
     ctx.floor("optimized_classes", 100)
     ctx.floor("optimizer_histories", 20)
